@@ -10,7 +10,9 @@ Inductive c03_case :=
 | Block (macct : N) (accts : list (N * N)) (cw h : Z) (coins : list (N * Z))
         (files : list file) (burn : list (N * Z)) (bank : list ((N * N) * Z))
         (panicked : bool)
-        (files' : list file) (burn' : list (N * Z)) (bank' : list ((N * N) * Z)).
+        (files' : list file) (burn' : list (N * Z)) (bank' : list ((N * N) * Z))
+| PostVB (size maxproofs : Z) (accepted : bool)    (* MsgPostFile.ValidateBasic with every other field valid *)
+.
         (* bank' lists the balances observed afterwards for the whole account universe of the case *)
 
 Fixpoint list_eqb {A} (e : A -> A -> bool) (a b : list A) : bool :=
@@ -31,6 +33,7 @@ Definition nz_eqb (a b : N * Z) : bool := N.eqb (fst a) (fst b) && (snd a =? snd
 
 Definition c03_ok (c : c03_case) : bool :=
   match c with
+  | PostVB size mp accepted => Bool.eqb (post_admissible size mp) accepted
   | RmKey l k res =>
     match remove_key k l, res with
     | Some a, Some b => list_eqb N.eqb a b
